@@ -1,5 +1,8 @@
 import CoercionModel.Proofs.Engine
 import CoercionModel.Proofs.TranslatedGates
+import CoercionModel.Proofs.Regate
+import CoercionModel.Model.Skeletons
+import CoercionModel.Generated.F10
 set_option linter.unusedSimpArgs false
 /-
   C06 — Bypass and pre-check gating: what must not run does not run.
@@ -122,5 +125,22 @@ example : blkPreOk { exB with bypass := none, pre := some { idx := 5, actions :=
 theorem translated_skipRecoveredChecks (o : Option Checks) : Generated.T1.skipRecoveredChecksOpt o = o.isNone := Translated.skipRecoveredChecks_eq o
 theorem translated_examineBypasses (o : Option Checks) : Generated.T1.examineBypassesOpt o = (o.map (·.status) == some .completed) :=
   Translated.examineBypasses_eq o
+
+/-! ### the gate on entry to a block, fresh or recovered (Model/Regate; defect D29, fix 126bafb) -/
+
+/-- a block that has PreChecks is never entered past a ContChecks group whose first run has not completed:
+    the gate runs it — also after a recovery in which the PreChecks are already Completed -/
+theorem recovered_block_cont_gated (pre c : Status) (hc : c ≠ .completed) :
+    Regate.runsCont (Regate.blockGate (some pre) (some c)) = true := Regate.cont_gated pre c hc
+/-- the pinned code skipped that run after a recovery (D29) -/
+theorem old_gate_skipped_cont : Regate.runsCont (Regate.blockGateOld (some .completed) (some .notStarted)) = false :=
+  Regate.old_gate_skipped_cont
+/-- on a fresh run nothing changed -/
+theorem gate_fresh_same (pre cont : Option Status) (hp : pre ≠ some .completed) :
+    Regate.blockGate pre cont = Regate.blockGateOld pre cont := Regate.fresh_same pre cont hp
+/-- BlockPreChecks / PlanPreChecks still have the shape Model/Regate and Model/Engine were written against -/
+theorem facts_gate_skeleton :
+    Generated.F10.blockPreChecks = Skeletons.blockPreChecks ∧ Generated.F10.planPreChecks = Skeletons.planPreChecks := by
+  decide
 
 end Coercion.C06
